@@ -30,7 +30,7 @@ claimed = {
          "Seeded search over well-formed replies of Frontlines, Savage 2, JC2M, Mindustry, The Ship, Battalion 1944 and Eco; oracle: field-for-field equality with the model incl. Battalion override rules and reported-vs-listed player counts.",
          "4.C07", TRUST + "FFOW, Savage 2, JC2M player block and Eco JSON are code-derived golden layouts; the HTTP client is ureq 2.12.1 with its TcpStream and Instant swapped for the simulator's (vendor/ureq)"),
  "C08": ("fault_enumeration", "enumeration of network delivery schedules: all permutations of 2-5 fragments (200 sampled at 6) and every single duplication, vs in-order delivery",
-         "For each multi-datagram response (Valve Source / GoldSrc split, GameSpy 1 parts, GameSpy 3 splitnum packets, Unreal 2 lists) the simulated network delivers the same fragments in every order (exhaustive for n <= 5, 200 sampled orders at n = 6) and with every single-fragment duplication at every position; oracle: equal to the in-order result (duplication: equal or an error).",
+         "For each multi-datagram response (Valve Source / GoldSrc split, GameSpy 1 parts, GameSpy 3 splitnum packets, Unreal 2 lists) the simulated network delivers the same fragments in every order (exhaustive for n <= 5, 200 sampled orders at n = 6) and with every single-fragment duplication at every position, plus sampled combinations of both; Valve answers also bzip2-compressed; oracle: equal to the in-order result (duplication: equal or an error).",
          "4.C08", TRUST + "in-order decoding is owned by C02/C04/C06 (cases whose baseline fails are skipped and counted)"),
  "C09": ("exploration", "wire-history oracle over simulated conversations: transmissions == the protocol's requests, right address, challenge echoed, nothing else",
          "Seeded conversations of every protocol and game module with challenge-issuing model servers; the first Valve challenge is enumerated over the 625 byte-class strata {00,0A,41,FF,other}^4, GameSpy 3 challenges over all i32 classes; the oracle reads only the recorded history: every transmission is the specified request (fixed bytes, session id, framing, host / protocol-version fields, big-endian port), addressed to the caller's IP and the given or golden default port, challenge echoed byte for byte, nothing extra.",
